@@ -203,7 +203,12 @@ def _run(case, only=None, log=None, res=None, conc=None):
 
                 def c2():
                     box[n2] = _do(w, ids, o2, tag="q%d" % n2)
-                pol = make_policy(conc["sched"])
+                if conc.get("explicit") is not None:
+                    pol = make_policy({"kind": "replay", "preemptions": conc["explicit"].get(str(n), [])})
+                else:
+                    sp = dict(conc["sched"])
+                    sp["seed"] = (sp.get("seed", 0) * 1000003 + n) % (2**32)
+                    pol = make_policy(sp)
                 sched = Scheduler(pol, TRACE, log=log)
                 with sched:
                     try:
@@ -215,6 +220,7 @@ def _run(case, only=None, log=None, res=None, conc=None):
                     if x and x[0] == "exc":
                         raise x[1]
                 res.points += sched.points
+                res.extra.setdefault("conc_explicit", {})[str(n)] = sched.taken
                 if sched.switches:
                     res.fault("preemption", sched.switches)
                 for nn, oo in ((n, o), (n2, o2)):
@@ -293,7 +299,7 @@ def execute(case):
                 n += 2
             else:
                 n += 1
-        conc = {"sched": case["conc"]["sched"], "pairs": pairs}
+        conc = {"sched": case["conc"].get("sched"), "explicit": case["conc"].get("explicit"), "pairs": pairs}
         # both requests of a concurrent pair are in flight at the same virtual instant
         case = copy.deepcopy(case)
         for n in pairs:
@@ -348,6 +354,18 @@ def execute(case):
 
 
 def shrink(case):
+    if case.get("conc") and case["conc"].get("explicit") is None:
+        # make the schedules of the concurrent pairs explicit, so that the replay file needs no PRNG
+        r = execute(case)
+        c = copy.deepcopy(case)
+        c["conc"] = {"explicit": r.extra.get("conc_explicit", {})}
+        yield c
+    if case.get("conc") and case["conc"].get("explicit"):
+        for n, lst in case["conc"]["explicit"].items():
+            for cand in shrink_list(lst):
+                c = copy.deepcopy(case)
+                c["conc"]["explicit"][n] = cand
+                yield c
     # drop whole instances (renumbering), then single ops
     k = len(case["instances"])
     if k > 2:
